@@ -38,6 +38,11 @@ OBLIGATIONS = [
                "thorough": [{"nx": n, "version": v, "_label": "%d-leases-v%d" % (4 + n, v)} for n in (1, 2, 3) for v in (1, 2)]},
         desc="MutableShareFile.writev -> _write_share_data -> _change_container_size with more than 4 leases, arbitrary offset/length "
              "(including growth by a few bytes, old and new lease block overlapping): get_leases() after == before (all fields)"),
+    chx("imm_write_keeps_leases", "C25_h", "h_imm_write_keeps_leases", bounds=BD, timeout=T,
+        cases=[{"version": 2, "_label": "v2"}],
+        desc="ShareFile.write_share_data on an upload in progress (allocated size, 1..2 leases behind the data): refused with "
+             "DataTooLargeError iff it reaches beyond the allocated size; an accepted write leaves lease count, every lease field "
+             "and the container size unchanged"),
     chx("serializers", "C25_h", "h_serializers", bounds=BD, cases=V, timeout=T,
         desc="lease_schema v1/v2 (im)mutable serializers, LeaseInfo/HashedLeaseInfo: v2 stores blake2b(secret) and never the secret; "
              "round trip recognises the right secret and rejects another token, the cancel secret and the stored hash itself; "
